@@ -185,7 +185,11 @@ func runEval(c *run.Ctx, cs *Case, fam string, nontrivSample bool) bool {
 	maxList := 0
 	helpers := map[string]int{}
 	for i := range cs.Ctxs {
-		cands, r, why := evalRef(cs.AST, &cs.Ctxs[i])
+		cands, r, why, big := evalRefBig(cs.AST, &cs.Ctxs[i])
+		if big {
+			c.Count("skipped_too_big", 1)
+			return true
+		}
 		js[i] = judged{cands, why}
 		for f := range r.flags {
 			flags[f] = true
